@@ -426,6 +426,27 @@ func c12Corpus(g *lineGen, r *rng) {
 			g.add("VW", fn, "1", lit(s))
 		}
 	}
+	// header lines longer than the reader's buffer (4096): an unknown field is ignored whatever its length, and
+	// what its tail looks like is irrelevant
+	for _, fn := range []string{"strict:-", "header:78", "lsp", "strict:78"} {
+		for _, n := range []int{4070, 4089, 4090, 4096, 4097, 5000, 9000, 12289} {
+			pad := yspec(n, "a")
+			g.add("VW", fn, "W", lit("Content-Length: 3\r\nX-Pad: ")+"+"+pad+"+"+lit("\r\n\r\nabc"))
+			g.add("VW", fn, "W", lit("X-Pad: ")+"+"+pad+"+"+lit("\r\nContent-Type: x\r\nContent-Length: 3\r\n\r\nabcContent-Length: 1\r\n\r\nz"))
+			g.add("VW", fn, "1", lit("Content-Length: 3\r\nX-Pad: ")+"+"+pad+"+"+lit("Content-Length: 1\r\n\r\nabc"))
+			g.add("VW", fn, "W", lit("Content-Length: 3\r\nX-Pad: ")+"+"+pad+"+"+lit("Content-Length: 1\r\n\r\nabc"))
+			g.add("VW", fn, "W", lit("Content-Length: 3\r\nX-Pad:")+"+"+pad+"+"+lit(": b\r\nContent-Type: x\r\n\r\nabc"))
+		}
+	}
+	// a complete record beyond the preallocation bound (16 MiB) whose Content-Type is wrong or missing for the
+	// framing: the verdict on the type is reported together with the whole record, on this read path too
+	for _, c := range [][2]string{
+		{"strict:78", "Content-Type: application/json\r\n"}, {"strict:78", ""}, {"strict:-", "Content-Type: x\r\n"},
+		{"header:78", "Content-Type: y\r\n"}, {"lsp", "Content-Type: text/plain\r\n"}, {"strict:78", "Content-Type: x\r\n"},
+	} {
+		n := 1<<24 + 1 + len(c[1])
+		g.add("VW", c[0], "W", lit(c[1]+fmt.Sprintf("Content-Length: %d\r\n\r\n", n))+"+"+zspec(n, uint64(n), "c")+"+"+lit("Content-Length: 1\r\n\r\nq"))
+	}
 	for _, s := range []string{"", " ", "{}", "{} ", "{}{}", "1 2", "12\"a\"", "truefalse", "01", "{", "[1,", "\"abc", "nul", "null", "nullx", "x", "}", "1x", "-", "1e", "[1 2]", "{\"a\" 1}", "\"\\x\"", "\"\x01\"",
 		"[" + strings.Repeat("[", 20), "1.5e+3,", " \n\t\r1", "\xef\xbb\xbf{}", "{}\x00"} {
 		g.addStream("rawjson", s, r)
